@@ -135,3 +135,38 @@ def final_regs(ip, result):
         # field index is irrelevant for symbolic base lookups by name; resolve through stores instead
         out[f] = v
     return out
+
+
+REGF = ('af', 'bc', 'de', 'hl', 'sp', 'ip', 'cycles')
+
+
+def entry_reg(name):
+    return S(32, 'regs.' + name, ('field', 'cpu::Registers', name, 'u32'))
+
+
+def summarise_interp(result):
+    """Summary of one interpreter path: final register terms, ip/cycle deltas, bus events, flag condition."""
+    st = result.state
+    env = st.env
+    regs = {f: entry_reg(f) for f in REGF}
+    bus = []
+    for e in st.events:
+        if e[0] == 'store' and e[1] == 'regs' and len(e[2]) == 1 and e[2][0][0] == 'f':
+            regs[e[2][0][1]] = e[3]
+        elif e[0] == 'call' and e[1] in BUS:
+            nm = e[1].split('::')[-1]
+            kind = 'w' if 'write' in nm else 'r'
+            width = 16 if 'word' in nm else 8
+            args = e[2]
+            bus.append({'kind': kind, 'width': width, 'addr': args[1], 'value': args[2] if kind == 'w' else e[3],
+                        'site': e[4]})
+    from .affine import diff_const
+    ipd = diff_const(regs['ip'], entry_reg('ip'), env, 32)
+    cyd = diff_const(regs['cycles'], entry_reg('cycles'), env, 32)
+    af = env.av(entry_reg('af'))
+    cond = {}
+    for nm, bit in (('Z', 0x80), ('C', 0x10)):
+        cond[nm] = 1 if af.m1 & bit else (0 if af.m0 & bit else None)
+    status = result.ret[2] if result.ret is not None and result.ret[0] == 'c' else None
+    return {'status': status, 'regs': regs, 'ip_delta': ipd, 'cycles_extra': cyd, 'bus': bus, 'env': env,
+            'cond': cond, 'result': result}
